@@ -553,7 +553,12 @@ func combinatorOps(c *core.Ctx) {
 			unitsHere := 0
 			for i := range p.Steps {
 				st := &p.Steps[i]
-				if (st.Kind != ir.KEnter && st.Kind != ir.KCall) || st.Depth != 0 {
+				// the constructor's own appends / units, made directly or through a helper (`then(code, step)`); the
+				// recursive descent inside append / unit themselves does not count
+				if (st.Kind != ir.KEnter && st.Kind != ir.KCall) || st.Fn == appendFn || st.Fn == unitFn {
+					continue
+				}
+				if st.Depth != 0 && insideSeqMethod(p, i, appendFn, unitFn) {
 					continue
 				}
 				switch st.Static {
@@ -1266,4 +1271,21 @@ func iterativeDiscipline(c *core.Ctx, fn *ssa.Function, effect string) string {
 		return "the descent loop never steps or never stops"
 	}
 	return ""
+}
+
+// insideSeqMethod: step i of p is executed (at any depth) inside a frame of append / unit.
+func insideSeqMethod(p *ir.Path, i int, fns ...*ssa.Function) bool {
+	d := p.Steps[i].Depth
+	for j := i - 1; j >= 0 && d > 0; j-- {
+		st := &p.Steps[j]
+		if st.Kind == ir.KEnter && st.Depth < d {
+			for _, f := range fns {
+				if st.Static == f {
+					return true
+				}
+			}
+			d = st.Depth
+		}
+	}
+	return false
 }
